@@ -18,6 +18,17 @@ CHECKS = {
              "process.executable.name is outside the generated domain. 'merge does not modify operands' is checked on "
              "the implementation (the functional model cannot exhibit mutation).",
         design="5-C18"),
+    "C19": dict(
+        engine="E4-stores",
+        technique="Coq proof (precedence characterisation, print/parse and join/split round trips, app-frame iff) + in-Coq correspondence with ConfigService/GRPCService/LongPoll/is_app_frame under controlled environments",
+        text="9 Coq theorems over Config.v: resolution precedence (code > env-backed default > DEEP_<KEY> > absent, functions "
+             "called), 'same from code or environment' for the typed uses (poll interval via decimal print/parse round trip, "
+             "booleans via str2bool(str(v)), prefix lists via join/split round trip, no blank prefix ever), app-frame iff "
+             "and short-path law, interpreter files never app frames. Tied to the code by running the real services under "
+             "generated environments (deep.config re-imported each time) and comparing inside Coq.",
+        note="Trusted: Coq kernel+VM; harness; settings restricted to None/text/small naturals/bools/lists/functions; "
+             "POLL_TIMER texts are decimal integers; ASCII lower-casing; prefixes contain no comma.",
+        design="5-C19"),
 }
 
 NOT_APPLICABLE = {}
